@@ -241,11 +241,26 @@ pub struct Sim {
 
 pub type Files = FxHashMap<String, String>;
 
+/// A config text may carry the files it refers to (zippychord dictionary, include) in comment lines
+/// of the form `;; KMC-FILE <name> <content with \n and \t escapes>`, so that a config + history
+/// is self-contained in replay files and `kmc sim`.
+pub fn embedded_files(cfg: &str) -> Files {
+    let mut f = Files::default();
+    for l in cfg.lines() {
+        if let Some(rest) = l.trim_start().strip_prefix(";; KMC-FILE ") {
+            if let Some((name, content)) = rest.split_once(' ') {
+                f.insert(name.to_string(), content.replace("\\n", "\n").replace("\\t", "\t"));
+            }
+        }
+    }
+    f
+}
+
 impl Sim {
     /// Builds a fresh real instance. Err(msg) = the parser rejected the text. A panic is
     /// returned as Err("PANIC ...").
     pub fn new(cfg: &str) -> Result<Sim, String> {
-        Self::new_with_files(cfg, Default::default())
+        Self::new_with_files(cfg, embedded_files(cfg))
     }
     pub fn new_with_files(cfg: &str, files: Files) -> Result<Sim, String> {
         match guarded(|| Kanata::new_from_str(cfg, files)) {
